@@ -148,7 +148,7 @@ def run(ctx):
         if case is not None and lv in ("accept", "reject") and verdict != case.doc_realisable and full_st != "crash":
             pass   # already reported above as a property violation with the concrete module
 
-    r = fw.CoqCases(ctx, "layout", hdr, "(run_layout2 T_run)", "pair_bool_eqb", "module", "(bool * bool)", shard=12)
+    r = fw.CoqCases(ctx, "layout", hdr, "(run_layout2 T_run)", "pair_bool_eqb", "module", "(bool * bool)", shard=20)
     bad = r.run(coq_cases) if coq_cases else []
     ctx.obligation("correspondence: %d modules: check_layout(T_run) = compiler's verdict on the modelled rules" % len(coq_cases), not bad)
     shown = 0
